@@ -41,6 +41,16 @@ def _gen_extra(rng, tier):
                    "wsgi": {"shape": "list", "status": "200 OK", "headers": [("X-W", "v")], "chunks": [b"ok"], "max_body": 65536, "via": "wrapper"}, "apps": {},
                    "client": [["feed", b"GET %s HTTP/1.1\r\nHost: h\r\n\r\n" % path], ["settle"]],
                    "truth": {"kind": "root-boundary", "root": root, "path": path.decode()}, "sched": {"seed": rng.randrange(1 << 30)}, "horizon": 30.0}
+            # (c) a client that takes its time: two pipelined requests, each answered by 120 KB in three chunks, nothing read until both are
+            # under way (the writes of the server have to wait: every send of the adapter has to have finished before the next starts)
+            shape = rng.choice(["list", "generator", "lazy_generator", "write_callable", "iter_close"])
+            big = [b"a" * 40000, b"b" * 40000 + b"|", b"c" * 40000]
+            yield {"family": "slow-client." + shape, "backends": [be], "config": {"keep_alive_timeout": 5000}, "conn": {},
+                   "wsgi": {"shape": shape, "status": "200 OK", "headers": [("X-W", "v")], "chunks": big, "raise_at": None, "max_body": 65536,
+                            "via": rng.choice(["wrapper", "middleware_" + be])}, "apps": {},
+                   "client": [["pause"], ["feed", b"GET /t%d HTTP/1.1\r\nHost: h\r\n\r\nGET /t%d HTTP/1.1\r\nHost: h\r\n\r\n" % (i, i + 1)], ["settle"],
+                              ["resume"], ["settle"]],
+                   "truth": {"kind": "slow-client", "body": b"".join(big)}, "sched": {"seed": rng.randrange(1 << 30)}, "horizon": 30.0}
             cl, sent = rng.choice([(10, 4), (10, 0), (100, 99), (3, 1)])
             yield {"family": "cut-body", "backends": [be], "config": {"keep_alive_timeout": 5000}, "conn": {},
                    "wsgi": {"shape": "list", "status": "200 OK", "headers": [("X-W", "v")], "chunks": [b"ok"], "max_body": 65536, "via": "wrapper"}, "apps": {},
@@ -172,6 +182,17 @@ def check(case, obs, tally):
                 out.append({"clause": "environ", "sig": "C17.environ/path-split-inside-segment",
                             "detail": "root_path %r, request path %r: the application was called with SCRIPT_NAME %r PATH_INFO %r" % (
                                 t["root"], t["path"], c_["environ"].get("SCRIPT_NAME"), pi)})
+        return out
+    if t["kind"] == "slow-client":
+        tally.clause("response")
+        try:
+            resps, _ = h1.parse_responses(obs.outbytes, [("GET", "1.1")] * 2, obs.closed_at is not None)
+        except h1.Malformed as e:
+            return [{"clause": "response", "sig": "C17.response/malformed", "detail": "slow client: " + str(e)}]
+        got = [(r.status, r.complete, len(r.body), r.body == t["body"]) for r in resps]
+        if got != [(200, True, len(t["body"]), True)] * 2 or len(calls) != 2:
+            out.append({"clause": "response", "sig": "C17.response/slow-client", "detail": "two pipelined requests, client reading late: application called %d times, "
+                        "responses (status, complete, length, equal) %r, expected twice (200, True, %d, True)" % (len(calls), got, len(t["body"]))})
         return out
     if t["kind"] == "cut-body":
         tally.clause("environ")
